@@ -297,6 +297,7 @@ class CFG:
         blocked: Callable[[Node], bool] = lambda n: False,
         correlate: bool = True,
         follow: Callable[[str], bool] = lambda label: True,
+        initial_facts: Iterable[Tuple[str, bool]] = (),
     ) -> Dict[int, Tuple]:
         """Nodes reachable from `starts` without passing through a blocked node (starts themselves are
         never blocked).  Returns {node id: predecessor state} for path reconstruction."""
@@ -304,7 +305,7 @@ class CFG:
         seen: Dict[State, Optional[State]] = {}
         stack: List[State] = []
         for s in starts:
-            st: State = (s, frozenset())
+            st: State = (s, frozenset(initial_facts))
             seen[st] = None
             stack.append(st)
         while stack:
@@ -363,6 +364,23 @@ class CFG:
             if e in r:
                 out.append((e, self.path_to(e)))
         return out
+
+
+def enclosing_guard_facts(g: "CFG", stmt: ast.AST) -> List[Tuple[str, bool]]:
+    """Truth values of stable-name guards under which `stmt` is nested (for seeding reach())."""
+    facts: List[Tuple[str, bool]] = []
+    for n in ast.walk(g.func):
+        if isinstance(n, ast.If):
+            for branch, val in ((n.body, True), (n.orelse, False)):
+                if any(x is stmt for b in branch for x in ast.walk(b)):
+                    t = n.test
+                    pol = True
+                    while isinstance(t, ast.UnaryOp) and isinstance(t.op, ast.Not):
+                        pol = not pol
+                        t = t.operand
+                    if isinstance(t, ast.Name) and t.id in g.stable_names():
+                        facts.append((t.id, pol if val else not pol))
+    return facts
 
 
 def build(func: ast.AST, may_raise: Callable[[ast.AST], bool] = default_may_raise) -> CFG:
